@@ -18,11 +18,15 @@ type c18Case struct {
 	Start string      `json:"start"` // starting buffer text
 	Reg   string      `json:"reg"`   // vi register
 	K     []sess.Step `json:"k"`     // the recorded keys, one token per step
+	// an earlier, empty recording on the same shell, then keys typed before the judged recording
+	EmptyRec bool        `json:"empty_rec,omitempty"`
+	Pre      []sess.Step `json:"pre,omitempty"`
 }
 
 var c18Printable = []string{"a", "foo", " ", "x y", "\"", "'", "\\", "\\e", "\\C-a", "$(", "1", "-", "Z", "tab", "#"}
 var c18EmacsKeys = []string{"\x01", "\x05", "\x02", "\x06", "\x04", "\x0b", "\x19", "\x14", "\x17", "\x1bb", "\x1bf", "\x1bd", "\x1bu", "\x1b[D", "\x1b[C", "\x1b[H", "\x1b[F", "\x1b[3~", "\x1b2", "\x1b3", "\x7f"}
-var c18ViCmdKeys = []string{"0", "$", "h", "l", "w", "b", "x", "X", "D", "p", "P", "~", "dw", "db", "2l", "3h", "yw", "rZ", "fo", "\x1b[D", "\x1b[C"}
+var c18ViCmdKeys = []string{"0", "$", "h", "l", "w", "b", "x", "X", "D", "p", "P", "~", "dw", "db", "2l", "3h", "yw", "rZ", "fo", "\x1b[D", "\x1b[C",
+	"di\"", "da\"", "di'", "di(", "da(", "yi\"", "diw", "daw", "dt ", "df ", "dT ", "d$", "d0", "\"ayw", "\"ap"}
 
 // escCombines: typed directly after ESC, this byte continues a sequence bound in the vi-insert
 // keymap (so "ESC b" replayed without timing is not "ESC, then b").
@@ -42,7 +46,17 @@ func c18Gen(r *rand.Rand, tier string, idx int) any {
 	c.Inputrc = "set history-autosuggest off\n"
 	c.Style = pick(r, []string{"emacs", "emacs", "vi"})
 	c.Mode = c.Style
-	c.Start = pick(r, []string{"", "hello world", "one two three four", "a(b)c 'q' end"})
+	c.Start = pick(r, []string{"", "hello world", "one two three four", "a(b)c 'q' end", "say \"hello\" and \"world\" now (x) 'y z' end"})
+	if r.Intn(5) == 0 {
+		c.EmptyRec = true
+		for i := r.Intn(3); i > 0; i-- {
+			if c.Style == "emacs" {
+				c.Pre = append(c.Pre, sess.Step{W: pick(r, []string{"ab", "x", "\x02", " "}), Tag: "pre"})
+			} else {
+				c.Pre = append(c.Pre, sess.Step{W: pick(r, []string{"l", "w", "h", "x"}), Tag: "pre"})
+			}
+		}
+	}
 	n := 1 + r.Intn(12)
 	add := func(w, tag string) { c.K = append(c.K, sess.Step{W: w, Tag: tag}) }
 	if c.Style == "emacs" {
@@ -98,10 +112,16 @@ func c18Gen(r *rand.Rand, tier string, idx int) any {
 					k = "0"
 				}
 			}
-			if len(k) == 2 && strings.ContainsAny(k[:1], "rf") {
+			switch {
+			case len(k) == 2 && strings.ContainsAny(k[:1], "rf"):
 				add(k[:1], "key")
 				add(k[1:], "arg")
-			} else {
+			case len(k) == 3 && k[0] != 0x1b && r.Intn(2) == 0:
+				// operator, object and its argument key each in their own read
+				add(k[:1], "key")
+				add(k[1:2], "key")
+				add(k[2:], "arg")
+			default:
 				add(k, "key")
 			}
 		}
@@ -120,6 +140,17 @@ func c18Session(env *fw.Env, c *c18Case, replay bool) (*sess.Result, []sess.Step
 	if c.Style == "vi" {
 		add("\x1b", "esc")
 	}
+	if replay && c.EmptyRec {
+		if c.Style == "emacs" {
+			add("\x18(", "start-record")
+			add("\x18)", "stop-record")
+		} else {
+			add("q", "start-record")
+			add(pick(rand.New(rand.NewSource(int64(len(c.K)))), []string{c.Reg, "m"}), "arg")
+			add("q", "stop-record")
+		}
+	}
+	plan = append(plan, c.Pre...)
 	if !replay {
 		plan = append(plan, c.K...)
 		plan = append(plan, c.K...)
@@ -148,7 +179,7 @@ func c18Run(env *fw.Env, raw json.RawMessage) fw.Outcome {
 	var c c18Case
 	unmarshal(raw, &c)
 	var o fw.Out
-	ctx := fmt.Sprintf("style=%s start=%q reg=%q K=%v", c.Style, c.Start, c.Reg, qsteps(c.K))
+	ctx := fmt.Sprintf("style=%s start=%q reg=%q empty-recording-first=%v pre=%v K=%v", c.Style, c.Start, c.Reg, c.EmptyRec, qsteps(c.Pre), qsteps(c.K))
 	resA, planA := c18Session(env, &c, false)
 	if !stdFailures(&o, resA, ctx+" session=retype") {
 		o.O.Sample = map[string]any{"ctx": ctx}
@@ -201,7 +232,12 @@ func c18Run(env *fw.Env, raw json.RawMessage) fw.Outcome {
 		ks = append(ks, k)
 	}
 	sortStrings(ks)
-	o.Cover(c.Style + "|" + strings.Join(ks, "+") + fmt.Sprintf("|len%d", min(len(c.K), 6)))
+	pre := ""
+	if c.EmptyRec {
+		pre = "|after-an-empty-recording"
+		o.Add("cases_after_an_empty_recording", 1)
+	}
+	o.Cover(c.Style + "|" + strings.Join(ks, "+") + fmt.Sprintf("|len%d", min(len(c.K), 6)) + pre)
 	if fa != fb {
 		o.Viol("replay-differs-from-retyping|"+c.Style+"|"+strings.Join(ks, "+"), ctx+fmt.Sprintf("\nretyped twice -> %q\nrecorded then replayed -> %q", fa, fb))
 	}
@@ -222,7 +258,7 @@ func init() {
 		ID:        "C18",
 		Level:     "exploration",
 		NeedsTerm: true,
-		Rule: "differential pairs of sessions: A = start text, then the key script K typed twice; B = start text, start recording, K, stop recording, replay (Emacs: C-x ( K C-x ) C-x e; Vi: q<r> K q @<r> for 10 registers, K starting and ending in command mode, ESC in its own read). K = 1-12 tokens: printable text incl. quotes, backslashes and text that looks like escapes (\\e, \\C-a), control keys, ESC-prefixed keys, CSI arrows/Home/End/Delete, quoted-insert + key, digit arguments, Vi commands with counts and argument keys; oracle: the final buffer texts of A and B are equal. " +
+		Rule: "differential pairs of sessions: A = start text, then the key script K typed twice; B = start text, start recording, K, stop recording, replay (Emacs: C-x ( K C-x ) C-x e; Vi: q<r> K q @<r> for 10 registers, K starting and ending in command mode, ESC in its own read). K = 1-12 tokens: printable text incl. quotes, backslashes and text that looks like escapes (\\e, \\C-a), control keys, ESC-prefixed keys, CSI arrows/Home/End/Delete, quoted-insert + key, digit arguments, Vi commands with counts and argument keys, operators with text objects and surround characters (di\" da( yi'), named registers; one case in five first makes an empty recording on the same shell and types a few keys; oracle: the final buffer texts of A and B are equal. " +
 			"distinct non-trivial = distinct (style, set of key kinds in K, length class) tuples",
 		Assumptions: []string{"macro keys are ASCII (non-ASCII runes in macros are truncated to bytes by the key queue: not exercised)"},
 		N: func(tier string) int {
